@@ -99,10 +99,16 @@ Proof. exact read_stream_fresh. Qed.
 
 (* the padding and length arithmetic of the model is what the translator derives, statement by statement, from the current
    ssh_socket.py (send_packet; SSH-1 branch of read_packet) *)
-From VProofs Require Import TieProofs.
+From VProofs Require Import TieC10.
 Theorem c10_tie_send_packet_padding : forall n, pad_len n = src_send_packet_padding n.
 Proof. exact tie_send_packet_padding. Qed.
 Theorem c10_tie_send_packet_length : forall n, n + pad_len n + 1 = src_send_packet_length n.
 Proof. exact tie_send_packet_length. Qed.
 Theorem c10_tie_ssh1_padding_length : forall plen, 8 - plen mod 8 = src_ssh1_padding_length plen.
 Proof. exact tie_ssh1_padding_length. Qed.
+Theorem c10_tie_ssh2_payload_length : forall plen padlen, plen - padlen - 1 = src_ssh2_payload_length plen padlen.
+Proof. exact tie_ssh2_payload_length. Qed.
+Theorem c10_tie_ssh2_block_test : forall paylen padlen, (4 + 1 + paylen + padlen) mod 8 = src_ssh2_check_size paylen padlen mod src_block_size.
+Proof. exact tie_ssh2_block_test. Qed.
+Theorem c10_tie_ssh1_block_test : forall padlen plen, (padlen + plen) mod 8 = src_ssh1_check_size padlen plen mod src_block_size.
+Proof. exact tie_ssh1_block_test. Qed.
